@@ -51,7 +51,8 @@ def _canon(doc, i=1):
     n = doc[i - 1]
     tag = (n["anchor"], bool(n["alias"]))
     if n["k"] == "map":
-        return ("map", tag, [((k["t"], k["v"]), _canon(doc, c)) for k, c in zip(n["keys"], n["kids"])])
+        ka = list(n.get("kanch") or []) + [""] * len(n["keys"])
+        return ("map", tag, [((k["t"], k["v"], ka[j]), _canon(doc, c)) for j, (k, c) in enumerate(zip(n["keys"], n["kids"]))])
     if n["k"] == "seq":
         return ("seq", tag, [_canon(doc, c) for c in n["kids"]])
     if n["k"] == "set":
@@ -87,6 +88,10 @@ def diff_tables(a, b):
                 return "node %d field %s: %r vs %r" % (i, f, xv, yv)
         if bool(x["alias"]) != bool(y["alias"]):
             return "node %d alias %r vs %r" % (i, x["alias"], y["alias"])
+        kx, ky = [a for a in (x.get("kanch") or [])], [a for a in (y.get("kanch") or [])]
+        if any(kx) or any(ky):
+            if (kx + [""] * len(x["keys"]))[:len(x["keys"])] != (ky + [""] * len(y["keys"]))[:len(y["keys"])]:
+                return "node %d aliased keys: %r vs %r" % (i, kx, ky)
     return ""
 
 
